@@ -81,7 +81,9 @@ class CompileMapper(StringifyMapper):
             result = "({}+{}){}".format(result, self(coeff, PREC_SUM),
                     stringify_exp(exp-next_exp))
 
-        if enclosing_prec > PREC_SUM and len(expr.data) > 1:
+        # A single-term polynomial is printed as a product '(+c)*b**e', which
+        # needs the parentheses as much as a sum does.
+        if enclosing_prec > PREC_SUM:
             return f"({result})"
         else:
             return result
